@@ -242,6 +242,47 @@ impl Shapes for Sh {
     }
 }
 
+/// Narrow optional payloads (their `Option` layout differs from `COption`'s) next to a `Self` return, and
+/// mutable slices of zero-sized elements.
+#[cglue_trait]
+pub trait Narrow {
+    fn with(&self, a: Option<u8>, b: Option<bool>, c: Option<u16>) -> Self;
+    fn nval(&self) -> u64;
+    fn plain(&self, a: Option<u8>, b: Option<bool>) -> u64;
+    fn mzst(&mut self, s: &mut [Z0]) -> usize;
+    fn rzst(&mut self) -> &mut [Z0];
+}
+#[derive(Clone)]
+pub struct Nw {
+    pub v: u64,
+    pub z: [Z0; 3],
+    pub n: usize,
+}
+fn enc3(a: Option<u8>, b: Option<bool>, c: Option<u16>) -> u64 {
+    let x = match a { Some(v) => 0x100 | v as u64, None => 0 };
+    let y = match b { Some(v) => 2 | v as u64, None => 0 };
+    let z = match c { Some(v) => 0x10000 | v as u64, None => 0 };
+    x | (y << 12) | (z << 20)
+}
+impl Narrow for Nw {
+    fn with(&self, a: Option<u8>, b: Option<bool>, c: Option<u16>) -> Self {
+        Nw { v: self.v ^ enc3(a, b, c), z: [Z0; 3], n: self.n }
+    }
+    fn nval(&self) -> u64 {
+        self.v
+    }
+    fn plain(&self, a: Option<u8>, b: Option<bool>) -> u64 {
+        self.v ^ enc3(a, b, None)
+    }
+    fn mzst(&mut self, s: &mut [Z0]) -> usize {
+        s.len()
+    }
+    fn rzst(&mut self) -> &mut [Z0] {
+        let n = self.n;
+        &mut self.z[..n]
+    }
+}
+
 /// Null-pointer-optimisable options are forwarded as they are (no COption wrapping): references were
 /// covered above; here NonZero integers, bare function pointers and boxes.
 #[cglue_trait]
@@ -572,6 +613,28 @@ nd::harnesses! {
         assert!(x == k);
         assert!(obj.r_res() == if k & 4 == 4 { Ok(k) } else { Err(k as u8) });
         assert!(obj.r_int_res() == if k & 8 == 8 { Ok(!k) } else { Err(()) });
+    }
+
+    /// Narrow optional payloads (u8 / bool / u16) on a method returning `Self` and on an ordinary method;
+    /// mutable slices of zero-sized elements as argument and result keep their length.
+    #[kani::unwind(7)]
+    fn c02_narrow_options_and_zst_mut_slices() {
+        let v: u64 = nd::any();
+        let n = nd::range(0, 3);
+        let a: Option<u8> = if nd::any() { Some(nd::any()) } else { None };
+        let b: Option<bool> = if nd::any() { Some(nd::any()) } else { None };
+        let c: Option<u16> = if nd::any() { Some(nd::any()) } else { None };
+        nd::cover!(a == Some(0), "Some(0)");
+        nd::cover!(b == Some(false), "Some(false)");
+        let direct = Nw { v, z: [Z0; 3], n };
+        let mut obj = trait_obj!(direct.clone() as Narrow);
+        let made = obj.with(a, b, c);
+        assert!(made.nval() == direct.with(a, b, c).nval(), "optional arguments arrive unaltered on a Self-returning method");
+        assert!(obj.plain(a, b) == direct.plain(a, b));
+        let mut zs = [Z0; 3];
+        let l = nd::range(0, 3);
+        assert!(obj.mzst(&mut zs[..l]) == l, "a mutable slice of zero-sized elements keeps its length");
+        assert!(obj.rzst().len() == n);
     }
 
     /// Null-pointer-optimised options (NonZero, fn pointer, Box) in argument and return position.
